@@ -205,6 +205,7 @@ pub fn eval_input(i: &Input, obs: &mut Obs) -> Result<(), Fail> {
     // (iii) encoders, including a buffer that is too small
     let p = &i.m;
     let _ = encode::<Vec<u8>>(p);
+    let _ = drive::encode_any::<Vec<u8>>(p);
     let _ = with_cap!(i.enc_cap, K => enc_arr::<K>(p));
     let mut it = encode_streaming(p);
     let cap_steps = 2 * p.len() + 24;
